@@ -64,7 +64,7 @@ ORDINARY_NET_APIS = ("greedy_compressed", "greedy_span", "windowed", "compressed
 
 @st.composite
 def case(draw):
-    api = draw(st.sampled_from(TREE_APIS + TREE_APIS + NET_APIS + GEN_APIS))
+    api = draw(st.sampled_from(TREE_APIS + TREE_APIS + NET_APIS + GEN_APIS + ["reconf", "reconf", "reconf", "reconf", "reconf_forest"]))
     c = {"api": api, "seed": draw(st.integers(0, 2**31 - 1))}
     # one case in eight also gives the seed as a numpy integer: same integer, same result
     c["seed_np"] = draw(st.integers(0, 7)) == 0
@@ -73,7 +73,17 @@ def case(draw):
         # object, optionally one that has been reconfigured before
         c["same_object"] = draw(st.integers(0, 2)) == 0
         c["pre_reconf"] = draw(st.booleans())
-        net = draw(gen.networks(min_n=4, max_n=10, volume_limit=2**60, max_dim=4, allow_size1=False, connected=draw(st.booleans())))
+        # the second call is made on the same object, on a copy or on a pickled clone
+        c["clone"] = draw(st.sampled_from([None, "pickle", "pickle", "copy"]))
+        if api in ("reconf", "reconf_forest") and draw(st.integers(0, 3)) > 0:
+            # the reconfiguration family keeps a record of what it has optimized
+            # already: exercise it - a tree that has been through an earlier
+            # (differently seeded) reconfiguration of the same kind, then the
+            # seeded call on it and on an equal tree
+            c["same_object"] = True
+            c["pre_reconf"] = "like_call"
+            c["clone"] = draw(st.sampled_from(["pickle", "pickle", "pickle", "copy", None]))
+        net = draw(gen.networks(min_n=8 if c.get("pre_reconf") == "like_call" else 4, max_n=16 if c.get("pre_reconf") == "like_call" else 10, volume_limit=2**60, max_dim=4, allow_size1=False, connected=draw(st.booleans())))
         c["net"] = net
         c["path"] = draw(gen.linear_paths(len(net["inputs"])))
         labels = list(net["sizes"])
@@ -84,6 +94,11 @@ def case(draw):
             c["args"] = {"div": draw(st.sampled_from([2, 4, 8])), "temp": draw(st.sampled_from([0.01, 0.5, 2.0])), "reps": draw(st.integers(1, 6)), "allow_outer": draw(st.sampled_from([True, True, False, "only"]))}
         elif api == "reconf":
             c["args"] = {"size": draw(st.integers(2, 6)), "search": draw(st.sampled_from(["random", "random", "bfs"])), "select": draw(st.sampled_from(["random", "random", "max"])), "maxiter": draw(st.integers(1, 6))}
+            if c.get("pre_reconf") == "like_call" and draw(st.integers(0, 3)) > 0:
+                # deterministic candidate order: the earlier run and the seeded
+                # call visit the same subtrees first, so the record of what is
+                # optimized already decides how far the seeded call gets
+                c["args"]["search"], c["args"]["select"] = "bfs", "max"
         elif api == "reconf_forest":
             c["args"] = {"num_trees": draw(st.integers(2, 3)), "restarts": draw(st.integers(1, 2)), "maxiter": draw(st.integers(1, 3)), "size": draw(st.integers(2, 5)), "pool": draw(st.sampled_from(["none", "none", "eager"]))}
         elif api == "anneal":
@@ -231,7 +246,8 @@ def judge(cases, per_case):
             bad.append(
                 (
                     i,
-                    f"{cases[i]['api']}(seed={cases[i]['seed']}) called twice on the same tree object with the same "
+                    f"{cases[i]['api']}(seed={cases[i]['seed']}) called twice "
+                    f"({ {None: 'on the same tree object', 'pickle': 'on a tree and on its pickled clone', 'copy': 'on a tree and on its copy'}[cases[i].get('clone')] }) with the same "
                     f"arguments (inplace=False) gave different results: {json.dumps(d0['first'])[:120]} vs "
                     f"{json.dumps(d0['second'])[:120]}",
                 )
